@@ -11,9 +11,9 @@ Base(cls, b, i, k, s, sl, clip, ub) ==
   [cls |-> cls, bits |-> b, int |-> i, kn |-> k, sym |-> s, sl |-> sl, al |-> <<1, 0>>, clip |-> clip, ub |-> ub]
 
 CfgLinear == {Base(cls, b, i, k, s, 0, "q", <<0, 0>>) :
-                cls \in {"bits", "linear"}, b \in 1..MaxBits, i \in {0, MaxInt}, k \in {0, 1}, s \in {0, 1}}
+                cls \in {"bits", "linear"}, b \in 1..MaxBits, i \in {-1, 0, MaxInt}, k \in {0, 1}, s \in {0, 1}}
 CfgRelu == {Base("relu", b, i, 0, 0, sl, clip, <<0, 0>>) :
-                b \in 1..MaxBits, i \in {0, MaxInt}, sl \in 0..3, clip \in {"q", "none"}}
+                b \in 1..MaxBits, i \in {-1, 0, MaxInt}, sl \in 0..3, clip \in {"q", "none"}}
 \* relu_upper_bound = half of the code range (a multiple of the step)
 CfgReluUb == {Base("relu", b, i, 0, 0, sl, "ub", <<1, i - 1>>) : b \in 2..MaxBits, i \in {0, MaxInt}, sl \in 0..1}
 CfgSurr == {Base(cls, b, 0, 1, s, 0, "q", <<0, 0>>) : cls \in {"tanh", "sigmoid"}, b \in 1..MaxBits, s \in {0, 1}}
